@@ -33,41 +33,68 @@ ID = "C17"
 RULE = ("every schedule with <= B pre-emptions (one player: B=2 quick, 3 thorough; two players: B=2; three players: B=1 quick, "
         "2 thorough; each enumeration capped, see harness/props/c17.py:generate) of "
         "each control history x wait in {T,F} x chunk counts, plus random walks over schedules; distinct = distinct "
-        "(script, wait, cs, executed schedule); non-trivial = at least one player thread ran and at least one "
-        "context switch between two unfinished threads happened.  Fine-grained families (every pull from a played "
+        "(script, wait, cs, executed schedule, call shape, faults); non-trivial = at least one player thread ran and at "
+        "least one context switch between two unfinished threads happened.  Fine-grained families (every pull from a played "
         "iterable is a yield point; harness/props/c17.py:FINE_FAMILIES x {chunks.struct, chunks.array} x wait in {T,F}): "
         "every schedule with <= 2 pre-emptions taken inside chunk assembly (pre-empted thread pulling or about to "
         "write; thorough: <= 3) plus <= 1 pre-emption anywhere (thorough: <= 2) for two players with equal / "
         "different chunk sizes, formats, lengths, control calls, the same list object played twice, Stream.copy() "
         "copies, one thub object, iterables that raise; three players <= 1 (thorough 2) pre-emptions in assembly; "
-        "random walks over random 2-3 player configurations")
+        "random walks over random 2-3 player configurations.  Call shapes (SHAPES x SHAPE_HISTORIES, <= 1 pre-emption, and "
+        "70 % of the random cases): chunk_size by keyword / omitted (chunks.size set for the run), rate / channels / "
+        "output_device_index by keyword or omitted, AudioIO(wait) / AudioIO(wait=...) / AudioIO(), api='jack' positional / "
+        "keyword / omitted, close() / terminate(), samples spelled as int / float / Fraction / half-integers (float, "
+        "Fraction); the pa.open arguments are compared with the Lean spec openArgs.  Backend faults (FAULT_FAMILIES, <= 2 "
+        "pre-emptions, and 20 % of the random coarse cases): the (n+1)-th write of a device stream raises; pa.open raising: "
+        "extra_checks (differential: the history with the failing call vs the history without it).  With-blocks left "
+        "normally / by an exception.  Recording histories (entry rec: REC_HISTORIES x 3 call shapes + random histories of "
+        "record / take / stop / close, 1-4 streams, takes past the end, calls after close)")
 TRUSTED = [
     "hand-written Lean transition system ALV/Model/C17.lean of AudioIO.play/close/thread_finished and "
     "AudioThread.run/stop/pause/play (modelled, not verified); atomicity = one threading/backend operation plus the "
     "local code up to the next one; the variant of stop() (Cfg.fixed) is probed from the source under test — on the "
-    "repaired source the liveness theorems that apply are the ones with cfg.fixed = true",
+    "repaired source the liveness theorems that apply are the ones with cfg.fixed = true.  An iterable that raises (or "
+    "a backend write that raises) is the step `write` with nothing left and `fail` set (Cfg.fails by player index)",
     "fine-grained cases: hand-written ALV/Model/C17Fine.lean (chunk assembly: one pull per step, buffer per player; "
-    "both chunking strategies have this shape) tied step by step; proved to refine the coarse system when no iterable "
-    "raises (fine_refines); played objects are wrapped in props/c17.py:Hooked (a yield point before each item is handed "
-    "over; the wrapped object itself — list, Stream.copy() copy, thub copy — is advanced atomically); which variant of "
-    "`run` (exception leaves the loop with / without the epilogue: FCfg.dieFixed) is probed from the source under test",
+    "both chunking strategies have this shape) tied step by step; proved to refine the coarse system, raising iterables "
+    "included when run has its try/finally (fine_refines under Sound); played objects are wrapped in props/c17.py:Hooked "
+    "(a yield point before each item is handed over; the wrapped object itself — list, Stream.copy() copy, thub copy — is "
+    "advanced atomically); which variant of `run` (exception leaves the loop with / without the epilogue: FCfg.dieFixed) "
+    "is probed from the source under test",
+    "call shapes: ALV/Spec/C17.lean PlayCall / openArgs / frames / samplesPerChunk are a hand-written reading of "
+    "AudioThread.__init__ (defaults, _STRUCT2PYAUDIO, the setdefault of output_device_index); the driver resolves the "
+    "call as written with them (the chunk size of the modelled play IS samplesPerChunk) and the harness compares the "
+    "keyword arguments the fake backend received; record(): the expected pa.open arguments are computed in props/c17.py",
+    "recording histories: hand-written ALV/Model/C17Rec.lean (RecStream generator, AudioIO.record / recording_finished / "
+    "the recordings loop of close) in its INTENDED behaviour, tied call by call (results of every take, reads issued, "
+    "device streams closed, _recordings, terminate); the fake input device delivers devChunk; the code under test "
+    "deviates from it on one class of histories (known finding D22), recognised by the model-side predicate "
+    "Driver/C17.lean:finishesLater",
+    "failed pa.open: no model; extra_checks compares the real code with itself (history with the failing play call vs "
+    "the history without it: log, what every stream received, manager state)",
     "harness/sched.py (deterministic scheduler in place of `threading`) and harness/fakeaudio.py (fake pyaudio/_portaudio "
-    "with the PortAudio stream protocol); CPython `threading` semantics assumed, attribute reads/writes between two "
-    "yield points are taken as atomic (GIL)",
+    "with the PortAudio stream protocol, fault injection, an input device, host API infos); CPython `threading` semantics "
+    "assumed, attribute reads/writes between two yield points are taken as atomic (GIL)",
 ]
 ASSUMPTIONS = [
     "one control thread issues play/pause/play/stop/join/close; players are AudioThread objects created by AudioIO.play",
     "audio iterables are finite (lists, generators over lists, Stream.copy() / thub copies of a finite Stream, "
-    "possibly raising after their samples), samples and the float zero padding packable in the sample format (dfmt 'f'; "
-    "'i'/'h' only with whole chunks), nchannels=1, no recording streams (the property is about playback), api=None",
+    "possibly raising after their samples), samples (ints, floats, Fractions, exactly representable in float32) and the "
+    "float zero padding packable in the sample format (dfmt 'f'; 'i'/'h' only with whole chunks), channels 1 or 2 by the "
+    "`channels` keyword (the deprecated `nchannels` alias is not exercised); recording streams: one channel, dfmt 'f', "
+    "chunk_size > 0, histories of the control thread alone (no player threads in the same history)",
+    "backends: PyAudio-compatible; a write that raises is covered (the thread still closes its stream); an open that "
+    "raises is covered by the differential extra check; a backend whose stream.close() or terminate() raises is NOT "
+    "covered (thread_finished would be skipped / close() would propagate the error)",
     "fine-grained system (Lean, all schedules, any number of players, per-player chunk sizes): "
     "fine_assembly_own_samples (every configuration, raising iterables included: stream ++ buffer ++ unpulled = the "
-    "player's own audio, buffer <= cs, chunks of exactly cs samples); when no iterable raises: fine_refines (a fine step "
-    "is a coarse step or a pull), fine_delivered_prefix/complete, fine_safety, fine_terminal_iff, fine_rank_decreases, "
-    "fine_steps_bounded, fine_maximal_run_exists, fine_shutdown, fine_wait_close_delivers_all; raising iterables: "
-    "die_close_spins (code as it is: close loops for ever over the dead thread, known finding D21), "
-    "die_fixed_close_returns (with try/finally); general shutdown with raising iterables + repair is PENDING "
-    "(fine_shutdown_with_raising_iterables_PENDING)",
+    "player's own audio, buffer <= cs, chunks of exactly cs samples); under Sound (run has its try/finally, or no "
+    "iterable raises): fine_refines (a fine step is a coarse step or a pull), fine_delivered_prefix/complete, "
+    "fine_safety, fine_terminal_iff, fine_rank_decreases, fine_steps_bounded, fine_maximal_run_exists, fine_shutdown, "
+    "fine_wait_close_delivers_all, fine_shutdown_with_raising_iterables (the former PENDING statement, now a theorem); "
+    "delivered_failing (an un-stopped player whose iterable raises delivered exactly audio[: len//cs*cs]); "
+    "die_close_spins (code without try/finally: close loops for ever over the dead thread, finding D21, fixed in /repo), "
+    "die_fixed_close_returns",
     "liveness is proved for maximal runs of the model WITHOUT a fairness assumption: every step of every thread "
     "decreases a ranking function (theorem rank_decreases), so every schedule is finite (steps_bounded, bound "
     "1 + sum over calls: play 27+8*chunks, pause/play/stop 4, join 2, close 12) and can be continued to a terminal "
@@ -83,25 +110,33 @@ ASSUMPTIONS = [
     "a player may still have its last lock release to do: known finding D15, theorem alive_after_close_reachable); "
     "wait_close_delivers_all (wait=True, no stop() call in the script: when close has returned every stream received its "
     "whole chunk sequence)",
+    "call shapes (Lean): play_defaults, play_omitted_is_default, explicit_device_wins, frames_per_write; recording "
+    "streams (Lean, all histories): rec_delivered_in_order, rec_manager_invariant, rec_closed_after_close",
     "NOT claimed: close(wait=True) with a player paused at that time blocks for ever (known finding D10b; model-level "
-    "theorems deadlock_pause_close_wait, deadlock_pause_close_wait_fixed); the tie still carries liveness on the "
-    "explored schedules of the real code (outcome done/deadlock compared step by step with the model)",
+    "theorems deadlock_pause_close_wait, deadlock_pause_close_wait_fixed); close() / take() with two or more active "
+    "recording streams raises TypeError (known finding D22, proposed fix D22-recording-finished-remove-by-identity.diff); "
+    "the tie still carries liveness on the explored schedules of the real code (outcome done/deadlock compared step by "
+    "step with the model)",
 ]
 MANIFEST = {
     "text": "Lean 4 theorems about a hand-written interleaving transition system of AudioIO/AudioThread, for ALL schedules, "
-            "any number of players, chunk counts and control scripts: safety (delivery, terminate once, closed after close, "
-            "backend protocol, lock order) AND liveness (every run is finite by a ranking function; close returns and "
-            "everything is shut: shutdown_fixed, shutdown_no_pause, shutdown_wait; every terminal state characterised: "
-            "terminal_states); the same for the fine-grained system in which every pull of a sample from a played iterable "
-            "is a step (refinement fine_refines + chunk-assembly invariant fine_assembly_own_samples + fine_shutdown); tied "
-            "to /repo by a step-by-step bisimulation check of the unmodified lazy_io.py source under a deterministic "
-            "scheduler on every check, with scheduler-aware played iterables, both chunking strategies, 1..3 players",
+            "any number of players, chunk counts and control scripts, played iterables that raise included: safety "
+            "(delivery, terminate once, closed after close, backend protocol, lock order) AND liveness (every run is finite "
+            "by a ranking function; close returns and everything is shut: shutdown_fixed, shutdown_no_pause, shutdown_wait; "
+            "every terminal state characterised: terminal_states); the same for the fine-grained system in which every pull "
+            "of a sample from a played iterable is a step (refinement fine_refines + chunk-assembly invariant "
+            "fine_assembly_own_samples + fine_shutdown + fine_shutdown_with_raising_iterables); the call as written -> "
+            "pa.open arguments and chunk size (openArgs, defaults as theorems); recording streams over all histories of "
+            "record/take/stop/close (in order, closed exactly once, everything shut after close); tied to /repo by a "
+            "step-by-step bisimulation check of the unmodified lazy_io.py source under a deterministic scheduler on every "
+            "check, with scheduler-aware played iterables, both chunking strategies, 1..3 players, call-shape and sample-"
+            "spelling variety, backend writes / opens that raise, with-blocks left by an exception, recording histories",
     "note": "Trusted: Lean kernel, axioms propext/Classical.choice/Quot.sound, harness/sched.py + harness/fakeaudio.py "
-            "(CPython threading semantics assumed); the model is hand written and validated against the code step by "
-            "step along every explored schedule, not extracted from it.  PENDING: shutdown in general for played "
-            "iterables that raise, with the proposed repair of run (fine_shutdown_with_raising_iterables_PENDING; the "
-            "delivery invariant is proved for them, the livelock of the code as it is is proved: die_close_spins, D21).  The "
-            "wait=True-with-a-paused-player deadlock (D10b) is a known finding excluded by an explicit hypothesis.",
+            "(CPython threading semantics assumed); the models are hand written and validated against the code step by "
+            "step along every explored schedule / call by call along every recording history, not extracted from it.  No "
+            "PENDING statement.  Known findings excluded by explicit hypotheses / recognised signatures: wait=True with a "
+            "paused player (D10b), the last lock release of a player that left _threads before close looked (D15), close / "
+            "take with two active recording streams (D22, proposed fix).",
     "technique": "interleaving transition system in Lean 4 with inductive invariants over all schedules and a ranking "
                  "function for termination; step-by-step bisimulation against the real code under a deterministic scheduler",
 }
@@ -148,6 +183,74 @@ def audio_of(c, m, cmd):
 
 
 FAIL_MSG = "played iterable raises"
+WRITE_FAIL_MSG = "injected write failure"
+DEFAULT_CHUNKS_SIZE = 2048
+API_INFOS = [{"name": "ALSA", "defaultOutputDevice": 2, "defaultInputDevice": 3},
+             {"name": "JACK Audio Connection Kit", "defaultOutputDevice": 7, "defaultInputDevice": 5}]
+KINDS = ("int", "float", "fraction", "half-float", "half-fraction")
+
+
+def shape_of(c):
+    """How the calls of the case are WRITTEN (the model sees what they mean):
+    cs_how   "kw" chunk_size=cs | "default" chunk_size omitted, chunks.size = cs during the run
+    rate     None (omitted: 44100) | a number given by keyword
+    channels None (omitted: 1) | 2 given by keyword (chunks of chunk_size * channels samples)
+    wait_how "pos" AudioIO(wait) | "kw" AudioIO(wait=wait) | "omit" AudioIO() (only when wait is false)
+    api      False | True: AudioIO(..., api="jack") with two host APIs known to the backend
+    device   None | explicit output_device_index keyword (wins over the api default)
+    kind     spelling of the samples: int | float | Fraction | half-integers as float / Fraction
+    close_how "close" | "terminate" (alias)"""
+    sh = {"cs_how": "kw", "rate": None, "channels": None, "wait_how": "pos", "api": False, "device": None,
+          "kind": "int", "close_how": "close"}
+    sh.update(c.get("shape") or {})
+    if c["wait"] and sh["wait_how"] == "omit":
+        sh["wait_how"] = "kw"
+    return sh
+
+
+def spell(xs, kind):
+    if kind == "float":
+        return [float(x) for x in xs]
+    if kind == "fraction":
+        return [Fraction(x) for x in xs]
+    if kind == "half-float":
+        return [x / 2.0 for x in xs]
+    if kind == "half-fraction":
+        return [Fraction(x, 2) for x in xs]
+    return list(xs)
+
+
+def kind_of(c, cmd):
+    """integer sample formats take the plain integers only"""
+    return shape_of(c)["kind"] if play_opts(c, cmd)[1] == "f" else "int"
+
+
+def call_of(c, cmd):
+    """keyword arguments of the play call as written -> (kwargs for the impl, call object for the driver)"""
+    sh = shape_of(c)
+    cs, dfmt, _src, _fail = play_opts(c, cmd)
+    own = len(cmd) > 2 and "cs" in cmd[2]
+    kw, call = {}, {}
+    if own or sh["cs_how"] == "kw":
+        kw["chunk_size"] = call["chunk_size"] = cs
+    if dfmt != "f":
+        kw["dfmt"] = call["dfmt"] = dfmt
+    if sh["rate"] is not None:
+        kw["rate"] = call["rate"] = sh["rate"]
+    if sh["channels"] is not None:
+        kw["channels"] = call["channels"] = sh["channels"]
+    if sh["device"] is not None:
+        kw["output_device_index"] = call["device"] = sh["device"]
+    return kw, call
+
+
+def samples_per_chunk(c, cmd):
+    return play_opts(c, cmd)[0] * (shape_of(c)["channels"] or 1)
+
+
+def write_faults(c):
+    """{player index: number of writes that succeed before one raises} (JSON keys are strings)"""
+    return {int(k): v for k, v in (c.get("faults") or {}).get("write", {}).items()}
 FMT_SIZE = {"f": 4, "h": 2, "i": 4}     # formats AudioThread knows (_STRUCT2PYAUDIO); "b"/"B" too narrow
 
 
@@ -224,18 +327,22 @@ class _Pin(object):
                 pass
 
 
+class _BlockError(Exception):
+    """raised by the control script inside `with AudioIO(...) as io:` (must come out of the block)"""
+
+
 def pend_str(pend):
     return ",".join("%d:%s:%d" % (t, l, 1 if e else 0) for t, l, e in pend)
 
 
-def decode(data, cs, dfmt="f"):
+def decode(data, cs, dfmt="f", scale=1):
     try:
         vals = struct.unpack("%d%s" % (cs, dfmt), data)
     except struct.error:
         return ["bad-length:%d" % len(data)]
     out = []
     for v in vals:
-        f = Fraction(v)
+        f = Fraction(v) * scale
         out.append(int(f) if f.denominator == 1 else str(f))
     return out
 
@@ -283,6 +390,9 @@ def run_case(c, pinned=False):
 
     S = sched.Scheduler(c.get("schedule", ()), BUDGET, namer)
     be.owner = S
+    sh = shape_of(c)
+    be.faults = {"write": write_faults(c), "open": list((c.get("faults") or {}).get("open", []))}
+    be.apis = [dict(a) for a in API_INFOS] if sh["api"] else []
 
     # the played objects (built outside the scheduled world: no yield point)
     shared = {}
@@ -301,9 +411,9 @@ def run_case(c, pinned=False):
     def played_object(m, cmd):
         cs, dfmt, src, fail = play_opts(c, cmd)
         if not fine:
-            return samples(m, cmd[1])
+            return spell(samples(m, cmd[1]), kind_of(c, cmd))
         if src is None:
-            return Hooked(samples(m, cmd[1]), S, fail)
+            return Hooked(spell(samples(m, cmd[1]), kind_of(c, cmd)), S, fail)
         how, g = src
         if how == "tee":
             return Hooked(shared[g]["tee"].copy(), S, fail)
@@ -321,11 +431,11 @@ def run_case(c, pinned=False):
                     m = nplay
                     nplay += 1
                     cs, dfmt, src, fail = play_opts(c, cmd)
-                    kw = {"chunk_size": cs}
-                    if dfmt != "f":
-                        kw["dfmt"] = dfmt
+                    kw, _call = call_of(c, cmd)
                     obj = played_object(m, cmd)
-                    ctx["started"].append({"m": m, "cs": cs, "dfmt": dfmt, "fail": fail})
+                    half = kind_of(c, cmd).startswith("half") and src is None
+                    ctx["started"].append({"m": m, "cs": samples_per_chunk(c, cmd), "frames": cs, "dfmt": dfmt,
+                                           "fail": fail, "scale": 2 if half else 1})
                     try:
                         th = io.play(obj, **kw)
                     except Exception:
@@ -334,7 +444,7 @@ def run_case(c, pinned=False):
                     ctx["ths"].append(th)
                     ctx["log"].append(["play", "ok"])
                 elif op == "close":
-                    io.close()
+                    getattr(io, sh["close_how"])()
                     ctx["log"].append(["close", "ok"] + snapshot(io))
                 else:
                     i = cmd[1]
@@ -351,14 +461,32 @@ def run_case(c, pinned=False):
             except Exception as e:
                 ctx["log"].append([op, common.err_kind(e)])
 
+    def manager():
+        a, kw = [], {}
+        if sh["wait_how"] == "pos":
+            a.append(wait)
+        elif sh["wait_how"] == "kw":
+            kw["wait"] = wait
+        if sh["api"]:
+            if a and len(script) % 2:
+                a.append("jack")
+            else:
+                kw["api"] = "jack"
+        return mod.AudioIO(*a, **kw)
+
     def main():
         if c.get("with"):
-            with mod.AudioIO(wait) as io:
-                ctx["io"] = io
-                body(io)
+            try:
+                with manager() as io:
+                    ctx["io"] = io
+                    body(io)
+                    if c.get("with_raise"):
+                        raise _BlockError()     # an exception inside the with-block
+            except _BlockError:
+                ctx["with_exc"] = "propagated"
             ctx["log"].append(["close", "ok"] + snapshot(io))
         else:
-            io = mod.AudioIO(wait)
+            io = manager()
             ctx["io"] = io
             body(io)
 
@@ -368,11 +496,15 @@ def run_case(c, pinned=False):
         io = ctx["io"]
         sts = []
         for k, st in enumerate(be.streams):
-            info = ctx["started"][k] if k < len(ctx["started"]) else {"m": None, "cs": c["cs"], "dfmt": "f", "fail": False}
-            sts.append({"written": [decode(d, info["cs"], info["dfmt"]) for d, _n in st.writes],
+            info = ctx["started"][k] if k < len(ctx["started"]) else {
+                "m": None, "cs": c["cs"], "frames": c["cs"], "dfmt": "f", "fail": False, "scale": 1}
+            wf = be.faults["write"].get(k)
+            sts.append({"written": [decode(d, info["cs"], info["dfmt"], info["scale"]) for d, _n in st.writes],
                         "nframes": sorted({n for _d, n in st.writes}),
-                        "state": st.state, "m": info["m"], "cs": info["cs"], "dfmt": info["dfmt"],
-                        "fail": info["fail"]})
+                        "state": st.state, "m": info["m"], "cs": info["cs"], "frames": info["frames"],
+                        "dfmt": info["dfmt"], "fail": info["fail"],
+                        "write_failed": "write!" in st.calls, "write_fault": wf,
+                        "open": {a: b for a, b in sorted(st.kwargs.items())}})
         obs.update({
             "log": [list(e) for e in ctx["log"]],
             "streams": sts,
@@ -383,23 +515,30 @@ def run_case(c, pinned=False):
             "finished": bool(getattr(io, "finished", False)) if io is not None else False,
             "threads": len(getattr(io, "_threads", [])) if io is not None else 0,
             "protocol_errors": list(be.protocol_errors),
+            "with_exc": ctx.get("with_exc"),
         })
 
     S.on_end = capture
     strategy = c.get("strategy", "struct")
     saved_default = mod.chunks.default
+    saved_size = type(mod.chunks).size
     if strategy != "struct":
         mod.chunks.default = getattr(mod.chunks, strategy)
+    if sh["cs_how"] == "default":
+        type(mod.chunks).size = c["cs"]       # "Default chunk size can be ... changed via chunks.size"
     try:
         outcome = S.run(main)
     finally:
         mod.chunks.default = saved_default
+        type(mod.chunks).size = saved_size
     io = ctx["io"]
     if "log" not in obs:
         capture()
     crashes = [[r.tid, r.crash] for r in S.recs if r is not None and r.crash]
-    # a player whose iterable was made to raise dies on that exception: expected, listed apart
+    # a player whose iterable was made to raise (or whose backend write was made to raise) dies on
+    # that exception: expected, listed apart
     fails = {k + 1 for k, st in enumerate(obs["streams"]) if st["fail"]}
+    wfails = {k + 1 for k, st in enumerate(obs["streams"]) if st["write_failed"]}
     obs.update({
         "outcome": outcome,
         "steps": ["%d|%s" % (ch, pend_str(p)) for ch, p in S.trace if ch is not None],
@@ -409,8 +548,10 @@ def run_case(c, pinned=False):
         # switched away from had pending ("label:enabled", "" when it had finished)
         "own": [next((l for t, l, _e in p if t == ch), "") for ch, p in S.trace if ch is not None],
         "left": _left_behind(S.trace),
-        "crashes": [x for x in crashes if not (x[0] in fails and FAIL_MSG in x[1])],
-        "died": sorted(x[0] - 1 for x in crashes if x[0] in fails and FAIL_MSG in x[1]),
+        "crashes": [x for x in crashes if not (x[0] in fails and FAIL_MSG in x[1])
+                    and not (x[0] in wfails and WRITE_FAIL_MSG in x[1])],
+        "died": sorted(x[0] - 1 for x in crashes if (x[0] in fails and FAIL_MSG in x[1])
+                       or (x[0] in wfails and WRITE_FAIL_MSG in x[1])),
         "hook_errors": S.hook_errors[:3],
     })
     if io is not None:
@@ -452,10 +593,14 @@ def die_variant():
 # case generation: bounded pre-emption enumeration on the real code
 # ------------------------------------------------------------------------------------------
 def key(c):
-    k = [c["script"], c["wait"], c["cs"], bool(c.get("with")), c.get("schedule", [])]
+    if is_rec(c):
+        return common.json.dumps(["rec", c["script"], c.get("shape") or {}], sort_keys=True)
+    k = [c["script"], c["wait"], c["cs"], bool(c.get("with")) + 2 * bool(c.get("with_raise")), c.get("schedule", [])]
     if is_fine(c):
         k += ["fine", c.get("strategy", "struct"), c.get("sources", [])]
-    return common.json.dumps(k)
+    if c.get("shape") or c.get("faults"):
+        k += [c.get("shape") or {}, c.get("faults") or {}]
+    return common.json.dumps(k, sort_keys=True)
 
 
 def _case(cfg, chosen):
@@ -644,7 +789,10 @@ def random_fine_cfg(rng):
     for _ in range(rng.choice([0, 0, 1, 2])):
         tail.append([rng.choice(["pause", "resume", "stop", "join"]), rng.randrange(nplayers)])
     tail.append(["close"])
-    return fine_cfg(plays, tail, sources, rng.random() < 0.6, rng.choice(STRATEGIES), cs)
+    cfg = fine_cfg(plays, tail, sources, rng.random() < 0.6, rng.choice(STRATEGIES), cs)
+    if rng.random() < 0.5:
+        cfg["shape"] = random_shape(rng, fine=True)
+    return cfg
 
 
 def generate_fine(rng, tier, scale):
@@ -683,6 +831,55 @@ def generate_fine(rng, tier, scale):
     return cases
 
 
+def random_shape(rng, fine=False):
+    """how the calls are written: every dimension of shape_of, mostly non-default"""
+    sh = {}
+    if rng.random() < 0.4:
+        sh["cs_how"] = "default"
+    if rng.random() < 0.35:
+        sh["rate"] = rng.choice([8000, 22050, 48000])
+    if not fine and rng.random() < 0.2:
+        sh["channels"] = 2
+    sh["wait_how"] = rng.choice(["pos", "kw", "omit"])
+    if rng.random() < 0.3:
+        sh["api"] = True
+    if rng.random() < 0.15:
+        sh["device"] = rng.choice([0, 4])
+    sh["kind"] = rng.choice(KINDS)
+    if rng.random() < 0.25:
+        sh["close_how"] = "terminate"
+    return sh
+
+
+# call shapes explored systematically (one dimension away from the plain call each, and all at once)
+SHAPES = [
+    {"cs_how": "default"},
+    {"rate": 8000, "wait_how": "kw"},
+    {"channels": 2, "kind": "float"},
+    {"wait_how": "omit", "kind": "fraction"},
+    {"api": True, "kind": "half-float"},
+    {"api": True, "device": 4, "close_how": "terminate"},
+    {"cs_how": "default", "rate": 48000, "channels": 2, "wait_how": "kw", "api": True, "kind": "half-fraction",
+     "close_how": "terminate"},
+]
+SHAPE_HISTORIES = [
+    [["play", 3], ["close"]],
+    [["play", 4], ["pause", 0], ["resume", 0], ["close"]],
+    [["play", 0], ["play", 5], ["close"], ["play", 1]],
+]
+# a backend write that raises after n writes (player index -> n): the thread must still close its
+# stream and leave `_threads`, close() must return
+FAULT_FAMILIES = [
+    ([["play", 5], ["close"]], {"0": 0}),
+    ([["play", 5], ["close"]], {"0": 1}),
+    ([["play", 5], ["close"]], {"0": 2}),
+    ([["play", 4], ["close"]], {"0": 2}),          # as many good writes as the audio has chunks: no failure
+    ([["play", 4], ["play", 3], ["close"]], {"1": 1}),
+    ([["play", 5], ["stop", 0], ["close"]], {"0": 1}),
+    ([["play", 5], ["pause", 0], ["resume", 0], ["join", 0], ["close"]], {"0": 2}),
+]
+
+
 def _resize(script, rng, lo, hi):
     return [[c[0], rng.randint(lo, hi)] if c[0] == "play" else list(c) for c in script]
 
@@ -698,6 +895,7 @@ def generate(rng, tier, scale=1):
                     cfg = {"script": h, "wait": wait, "cs": 2, "with": (hi % 5 == 0 and h[-1] == ["close"])}
                     if cfg["with"]:
                         cfg["script"] = h[:-1]
+                        cfg["with_raise"] = bool(hi % 2) != wait
                     cases += explore(cfg, 2 if quick else 3, 1500 if quick else 12000)
             for h in HISTORIES_2:
                 for wait in (False, True):
@@ -707,6 +905,16 @@ def generate(rng, tier, scale=1):
                 for wait in (False, True):
                     cfg = {"script": h, "wait": wait, "cs": 3, "with": False}
                     cases += explore(cfg, 1 if quick else 2, 300 if quick else 3000)
+            for si, shp in enumerate(SHAPES):
+                for hi, h in enumerate(SHAPE_HISTORIES):
+                    cfg = {"script": h, "wait": bool((si + hi) % 2), "cs": 2, "with": False, "shape": shp}
+                    cases += explore(cfg, 1 if quick else 2, 40 if quick else 600)
+            for fi, (h, wf) in enumerate(FAULT_FAMILIES):
+                for wait in (False, True):
+                    cfg = {"script": h, "wait": wait, "cs": 2, "with": False, "faults": {"write": wf}}
+                    if fi % 3 == 1:
+                        cfg["shape"] = {"cs_how": "default", "kind": "half-float"}
+                    cases += explore(cfg, 2, 120 if quick else 1500)
             if not quick:
                 # chunk counts 0..4 for every one-player history
                 for h in HISTORIES_1:
@@ -725,8 +933,24 @@ def generate(rng, tier, scale=1):
                 h.insert(rng.randrange(1, len(h) + 1), extra)
             cfg = {"script": h, "wait": rng.random() < 0.5, "cs": rng.choice([1, 2, 3]),
                    "with": rng.random() < 0.2}
+            if cfg["with"] and rng.random() < 0.5:
+                cfg["with_raise"] = True
+            if rng.random() < 0.7:
+                cfg["shape"] = random_shape(rng)
+            if rng.random() < 0.2:
+                cfg["faults"] = {"write": {str(rng.randrange(2)): rng.randint(0, 3)}}
             cases += random_walks(cfg, rng, 2)
         cases += generate_fine(rng, tier, scale)
+    # recording histories
+    if scale == 1:
+        for h in REC_HISTORIES:
+            for shp in ({}, {"cs_how": "default", "api": True, "rate": 8000}, {"close_how": "terminate"}):
+                c = {"entry": "rec", "script": [list(x) for x in h], "wait": False, "cs": 2}
+                if shp:
+                    c["shape"] = shp
+                cases.append(c)
+    for _ in range((250 if quick else 6000) * scale):
+        cases.append(random_rec_case(rng))
     # distinct
     seen, out = set(), []
     for c in cases:
@@ -737,10 +961,269 @@ def generate(rng, tier, scale=1):
     return out
 
 
+
+# ------------------------------------------------------------------------------------------
+# recording streams (entry "rec"): histories of record / take / stop / close of the control thread
+# ------------------------------------------------------------------------------------------
+def is_rec(c):
+    return c.get("entry") == "rec"
+
+
+def dev_chunk(i, k, n):
+    """what the fake input device delivers: the k-th read of n frames on stream i
+    (ALV.C17Rec.devChunk has the same numbers)"""
+    return [1000 * (i + 1) + k * n + j for j in range(n)]
+
+
+def run_rec(c):
+    """script: ["record", cs] | ["take", i, n] | ["stop", i] | ["close"]; shape: how record() is written"""
+    mod = lazy_io()
+    be = fakeaudio.new_backend()
+    be.owner = None                  # one thread only: no scheduler, every operation acts directly
+    sh = c.get("shape") or {}
+    be.apis = [dict(a) for a in API_INFOS] if sh.get("api") else []
+
+    class _Input(dict):
+        def __missing__(self, i):
+            return lambda k, n: struct.pack("%df" % n, *dev_chunk(i, k, n))
+    be.input = _Input()
+    ctx = {"io": None, "recs": [], "log": [], "visible": [], "aborted": None}
+
+    def ints(xs):
+        out = []
+        for v in xs:
+            f = Fraction(v)
+            out.append(int(f) if f.denominator == 1 else str(f))
+        return out
+
+    def main():
+        a, kw = [], {}
+        if sh.get("api"):
+            kw["api"] = "jack"
+        io = mod.AudioIO(*a, **kw)
+        ctx["io"] = io
+        for j, cmd in enumerate(c["script"]):
+            op = cmd[0]
+            try:
+                if op == "record":
+                    kw = {}
+                    if sh.get("cs_how") != "default":
+                        kw["chunk_size"] = cmd[1]
+                    else:
+                        type(mod.chunks).size = cmd[1]
+                    if sh.get("rate") is not None:
+                        kw["rate"] = sh["rate"]
+                    r = io.record(**kw)
+                    ctx["recs"].append(r)
+                    ctx["visible"].append([])
+                    ctx["log"].append(["record", "ok"])
+                elif op == "close":
+                    getattr(io, sh.get("close_how", "close"))()
+                    ctx["log"].append(["close", "ok"])
+                else:
+                    i = cmd[1]
+                    if i >= len(ctx["recs"]):
+                        ctx["log"].append(["skipped", "ok"])
+                        continue
+                    r = ctx["recs"][i]
+                    if op == "take":
+                        xs = ints(r.take(cmd[2]))
+                        ctx["visible"][i] += xs
+                        ctx["log"].append(["take", xs])
+                    else:
+                        r.stop()
+                        ctx["log"].append(["stop", "ok"])
+            except Exception as e:
+                k = type(e).__name__
+                ctx["log"].append([op, "IOError" if k in ("OSError", "IOError") else common.err_kind(e)])
+                if not (op == "record" and k in ("OSError", "IOError")):
+                    ctx["aborted"] = j       # an unexpected exception: the history stops here
+                    return
+
+    # a loop of the code under test that never ends (no yield point to stop it at): line budget
+    lines = [0]
+
+    def tracer(frame, event, arg):
+        lines[0] += 1
+        if lines[0] > 400000:
+            raise _LineBudget()
+        return tracer
+
+    saved_size = type(mod.chunks).size
+    outcome = "done"
+    import sys
+    try:
+        sys.settrace(tracer)
+        main()
+    except _LineBudget:
+        outcome = "budget"
+    finally:
+        sys.settrace(None)
+        type(mod.chunks).size = saved_size
+    io = ctx["io"]
+    obs = {
+        "outcome": outcome,
+        "log": ctx["log"],
+        "streams": [{"reads": len(st.reads), "nframes": sorted(set(st.reads)), "closes": st.calls.count("close"),
+                     "state": st.state, "open": {a: b for a, b in sorted(st.kwargs.items())}} for st in be.streams],
+        "recs": [{"recording": bool(r.recording), "visible": ctx["visible"][k]} for k, r in enumerate(ctx["recs"])],
+        "recordings": len(getattr(io, "_recordings", [])) if io is not None else 0,
+        "terminates": be.terminates,
+        "finished": bool(getattr(io, "finished", False)) if io is not None else False,
+        "crashes": [],
+        "aborted": ctx["aborted"],
+        "chosen": [],
+    }
+    if io is not None:
+        io.finished = True
+    # generators left suspended would run their `finally` at garbage-collection time, inside some
+    # later run: finish them now, away from the manager
+    for r in ctx["recs"]:
+        try:
+            r.device_manager = _Sink()
+            r.stop()
+            for _x in r:
+                pass
+        except Exception:
+            pass
+    return obs
+
+
+class _Sink(object):
+    def recording_finished(self, recst):
+        pass
+
+
+class _LineBudget(BaseException):
+    pass
+
+
+def rec_spec_problems(c, io, drv):
+    out = []
+    if io["outcome"] != "done":
+        out.append(("run-does-not-end", str(io["outcome"])))
+    if io["aborted"] is not None:
+        e = io["log"][-1]
+        out.append(("call-raises", "%s raised %s (call %d of the history)" % (e[0], e[1], io["aborted"])))
+    for k, r in enumerate(io["recs"]):
+        st = io["streams"][k] if k < len(io["streams"]) else None
+        if st is None:
+            out.append(("rec-delivered", "recording %d has no device stream" % k))
+            continue
+        cs = (st["nframes"] or [st["open"].get("frames_per_buffer")])[0]
+        data = [x for j in range(st["reads"]) for x in dev_chunk(k, j, cs)]
+        if r["visible"] != data[:len(r["visible"])]:
+            out.append(("rec-delivered", "recording %d handed out %r, the device delivered %r" % (k, r["visible"], data)))
+        if st["closes"] > 1:
+            out.append(("rec-closed-twice", "device stream %d closed %d times" % (k, st["closes"])))
+    if io["terminates"] > 1:
+        out.append(("terminate-count", "terminate called %d times" % io["terminates"]))
+    closed = any(e[0] == "close" and e[1] == "ok" for e in io["log"])
+    if closed and io["aborted"] is None:
+        if io["terminates"] != 1:
+            out.append(("terminate-count", "terminate called %d times after close" % io["terminates"]))
+        if io["recordings"]:
+            out.append(("recordings-left", "_recordings not empty after close"))
+        for k, st in enumerate(io["streams"]):
+            if st["state"] != "closed" or st["closes"] != 1:
+                out.append(("open-after-close", "input stream %d: state %s, closed %d times" % (k, st["state"], st["closes"])))
+        if any(r["recording"] for r in io["recs"]):
+            out.append(("recording-after-close", "a RecStream is still recording after close"))
+    if not drv["spec"]["delivered"]:
+        out.append(("rec-delivered", "the model's own run breaks the delivery invariant"))
+    return out
+
+
+def rec_model_problems(c, io, drv):
+    out = []
+    m = drv["model"]
+    if io["aborted"] is not None:
+        # the history stopped at an exception the model does not have: only what came before counts
+        j = io["aborted"]
+        if io["log"][:j] != m["log"][:j]:
+            out.append("log before the exception: impl %r model %r" % (io["log"][:j], m["log"][:j]))
+        return out
+    if io["log"] != m["log"]:
+        out.append("log: impl %r model %r" % (io["log"], m["log"]))
+    sh = c.get("shape") or {}
+    for k, st in enumerate(io["streams"]):
+        if k >= len(m["streams"]):
+            out.append("input stream %d unknown to the model" % k)
+            break
+        ms = m["streams"][k]
+        if st["reads"] != ms["reads"] or st["closes"] != ms["closes"] or (st["state"] == "closed") != ms["done"]:
+            out.append("input stream %d reads/closes/closed: impl %s/%s/%s model %s/%s/%s" % (
+                k, st["reads"], st["closes"], st["state"] == "closed", ms["reads"], ms["closes"], ms["done"]))
+        if st["nframes"] not in ([], [ms["cs"]]):
+            out.append("input stream %d: frames per read %r, chunk size %d" % (k, st["nframes"], ms["cs"]))
+        want = {"format": 1, "channels": 1, "rate": sh.get("rate") or 44100, "frames_per_buffer": ms["cs"], "input": True}
+        if sh.get("api"):
+            want["input_device_index"] = API_INFOS[1]["defaultInputDevice"]
+        if st["open"] != want:
+            out.append("input stream %d: pa.open(**%r), expected %r" % (k, st["open"], want))
+    for k, r in enumerate(io["recs"]):
+        if k < len(m["streams"]):
+            ms = m["streams"][k]
+            if r["recording"] != ms["recording"] or r["visible"] != ms["out"][:len(r["visible"])]:
+                out.append("recording %d recording/handed out: impl %s/%r model %s/%r" % (
+                    k, r["recording"], r["visible"], ms["recording"], ms["out"]))
+    if len(m["streams"]) != len(io["streams"]):
+        out.append("streams: impl %d model %d" % (len(io["streams"]), len(m["streams"])))
+    if io["terminates"] != m["terminates"] or io["finished"] != m["finished"] or io["recordings"] != len(m["recordings"]):
+        out.append("terminates/finished/_recordings: impl %s/%s/%s model %s/%s/%s" % (
+            io["terminates"], io["finished"], io["recordings"], m["terminates"], m["finished"], len(m["recordings"])))
+    return out
+
+
+def random_rec_case(rng):
+    n = rng.randint(2, 9)
+    script, nrec = [], 0
+    for _ in range(n):
+        r = rng.random()
+        if nrec == 0 or r < 0.25:
+            script.append(["record", rng.choice([1, 2, 3, 4])])
+            nrec += 1
+        elif r < 0.65:
+            script.append(["take", rng.randrange(nrec + (1 if rng.random() < 0.05 else 0)), rng.randint(0, 7)])
+        elif r < 0.85:
+            script.append(["stop", rng.randrange(nrec)])
+        else:
+            script.append(["close"])
+    if rng.random() < 0.8:
+        script.append(["close"])
+        if rng.random() < 0.3:
+            script.append(rng.choice([["take", 0, 3], ["record", 2], ["close"]]))
+    sh = {}
+    if rng.random() < 0.3:
+        sh["cs_how"] = "default"
+    if rng.random() < 0.3:
+        sh["rate"] = rng.choice([8000, 48000])
+    if rng.random() < 0.3:
+        sh["api"] = True
+    if rng.random() < 0.2:
+        sh["close_how"] = "terminate"
+    c = {"entry": "rec", "script": script, "wait": False, "cs": 2}
+    if sh:
+        c["shape"] = sh
+    return c
+
+
+REC_HISTORIES = [
+    [["record", 3], ["close"]],
+    [["record", 3], ["take", 0, 4], ["close"]],
+    [["record", 2], ["take", 0, 3], ["stop", 0], ["take", 0, 5], ["take", 0, 1], ["close"]],
+    [["record", 3], ["take", 0, 4], ["record", 2], ["take", 1, 1], ["stop", 0], ["take", 0, 1], ["close"], ["take", 1, 5], ["record", 2]],
+    [["record", 2], ["record", 1], ["record", 3], ["take", 1, 2], ["take", 2, 1], ["close"], ["close"]],
+    [["record", 2], ["stop", 0], ["take", 0, 2], ["close"]],
+    [["close"], ["record", 2]],
+]
+
 # ------------------------------------------------------------------------------------------
 # engine interface
 # ------------------------------------------------------------------------------------------
 def impl(c):
+    if is_rec(c):
+        return run_rec(c)
     k = key(c)
     o = _obs_cache.pop(k, None)
     if o is None:
@@ -756,24 +1239,39 @@ def request_for(c, chosen):
     script = []
     fails = []
     closed = False
+    sh = shape_of(c)
+    wf = write_faults(c)
     for cmd in full_script(c):
         if cmd[0] == "play":
             cs, _dfmt, _src, fail = play_opts(c, cmd)
-            script.append(["play", audio_of(c, m, cmd), cs])
+            audio = audio_of(c, m, cmd)
+            spc = samples_per_chunk(c, cmd)
             if not closed:
-                fails.append(fail)      # by player index: a play after close creates no player
+                # by player index: a play after close creates no player.  A backend write made to
+                # raise after n writes is, for the thread, an iterable that raises after n chunks
+                # (the exception leaves `run` through its `finally` at the operation `st<k>.write`)
+                n_ok = wf.get(len(fails))
+                if n_ok is not None and n_ok < -(-len(audio) // spc):      # fewer than its chunks
+                    audio = audio[:n_ok * spc]
+                    fail = True
+                fails.append(fail)
+            script.append(["play", audio, None, call_of(c, cmd)[1]])
             m += 1
         else:
             script.append(cmd[:2])
             closed = closed or cmd[0] == "close"
-    r = {"entry": c.get("entry", "sched"), "wait": bool(c["wait"]), "fixed": variant() == "fixed", "cs": c["cs"],
-         "script": script, "schedule": chosen}
+    r = {"entry": c.get("entry", "sched"), "wait": bool(c["wait"]), "fixed": variant() == "fixed",
+         "cs": c["cs"] if sh["cs_how"] == "default" else DEFAULT_CHUNKS_SIZE,
+         "script": script, "schedule": chosen, "fails": fails,
+         "apiOut": API_INFOS[1]["defaultOutputDevice"] if sh["api"] else None}
     if is_fine(c):
-        r.update({"fails": fails, "dieFixed": die_variant() == "fixed"})
+        r.update({"dieFixed": die_variant() == "fixed"})
     return r
 
 
 def request(c):
+    if is_rec(c):
+        return {"entry": "rec", "script": c["script"]}
     k = key(c)
     chosen = _chosen.pop(k, None)
     if chosen is None:
@@ -802,13 +1300,30 @@ def spec_problems(c, io, drv):
             out.append(("delivered", "stream %d has no play call" % k))
             continue
         w = st["written"]
+        # an iterable that raises after its samples delivers the chunks that were complete (theorem
+        # delivered_failing); a backend write made to raise: the chunks written before (the request
+        # carries the audio cut there)
+        full = want[m]
+        if st["fail"]:
+            plays = [x for x in full_script(c) if x[0] == "play"]
+            full = want[m][:len(audio_of(c, m, plays[m])) // cs]
         if w != want[m][:len(w)]:
             out.append(("delivered", "stream %d received %r, not a prefix of %r" % (k, w, want[m])))
-        elif (k < len(io["alive"]) and not io["alive"][k] and not io["halting"][k] and w != want[m]
-              and io["outcome"] == "done" and not st["fail"]):
-            out.append(("delivered-incomplete", "stream %d: player finished un-stopped after %d of %d chunks" % (k, len(w), len(want[m]))))
-        if st["nframes"] not in ([], [cs]):
-            out.append(("delivered", "stream %d: frames per write %r, chunk size %d" % (k, st["nframes"], cs)))
+        elif (k < len(io["alive"]) and not io["alive"][k] and not io["halting"][k] and w != full
+              and io["outcome"] == "done"):
+            out.append(("delivered-incomplete", "stream %d: player finished un-stopped after %d of %d chunks" % (k, len(w), len(full))))
+        if st["nframes"] not in ([], [st["frames"]]):
+            out.append(("delivered", "stream %d: frames per write %r, chunk size %d" % (k, st["nframes"], st["frames"])))
+        exp = drv["spec"]["opens"][m] if m < len(drv["spec"].get("opens", [])) else None
+        if exp is not None:
+            got = dict(st["open"])
+            got.setdefault("output_device_index", None)
+            if got != exp["open"]:
+                out.append(("open-arguments", "stream %d: pa.open(**%r), expected %r" % (k, got, exp["open"])))
+            if exp["samples"] != cs:
+                out.append(("open-arguments", "stream %d: harness chunk size %d, spec %d" % (k, cs, exp["samples"])))
+    if c.get("with") and c.get("with_raise") and io["outcome"] == "done" and io.get("with_exc") != "propagated":
+        out.append(("with-block-exception-swallowed", "the exception raised inside the with-block did not come out of it"))
     if io["protocol_errors"]:
         out.append(("backend-protocol", io["protocol_errors"][0]))
     if io["crashes"]:
@@ -901,6 +1416,9 @@ def model_problems(c, io, drv):
 def compare(c, io, drv):
     if "err" in io:
         return [("model", "harness failure " + str(io)[:300])]
+    if is_rec(c):
+        return ([("model", d) for d in rec_model_problems(c, io, drv)[:3]]
+                + [("spec", "%s: %s" % (k, d)) for k, d in rec_spec_problems(c, io, drv)[:3]])
     out = [("model", d) for d in model_problems(c, io, drv)[:3]]
     out += [("spec", "%s: %s" % (k, d)) for k, d in spec_problems(c, io, drv)[:3]]
     return out
@@ -909,6 +1427,19 @@ def compare(c, io, drv):
 def classify(c, io, drv):
     if "err" in io:
         return "harness:" + str(io.get("err"))
+    if is_rec(c):
+        sp = rec_spec_problems(c, io, drv)
+        agrees = not rec_model_problems(c, io, drv)
+        if not sp:
+            return "correspondence"
+        j = io.get("aborted")
+        fl = drv["model"].get("finishes_later", [])
+        if (j is not None and io["log"][-1][1] == "TypeError" and j < len(fl) and fl[j] and not any(fl[:j])):
+            # the model predicts exactly this call as the first one that finishes (closes) a recording
+            # stream which is not the oldest one still in _recordings
+            return ("rec:%s-raises-TypeError:finishes-a-recording-that-is-not-the-oldest-active-one" % io["log"][-1][0]
+                    + ("" if agrees else ":MODEL-DISAGREES"))
+        return "rec:" + sp[0][0] + ("" if agrees else ":MODEL-DISAGREES")
     sp = spec_problems(c, io, drv)
     agrees = not model_problems(c, io, drv)
     if not sp:
@@ -936,6 +1467,8 @@ def classify(c, io, drv):
 
 
 def nontrivial(c, io):
+    if is_rec(c):
+        return len(io.get("streams", [])) >= 1 or len(c["script"]) >= 2
     if io.get("outcome") == "bad-schedule":
         return False
     ch = io.get("chosen", [])
@@ -943,14 +1476,39 @@ def nontrivial(c, io):
     return len(io.get("alive", [])) >= 1 and switches >= 2
 
 
+def tally_rec(eng, c, io):
+    eng.count("granularity", "recording histories (record / take / stop / close)")
+    eng.count("rec.outcome", "stopped at an exception" if io.get("aborted") is not None else io.get("outcome"))
+    eng.count("rec.streams", len(io.get("streams", [])))
+    sh = c.get("shape") or {}
+    eng.count("rec.shape", ",".join(sorted("%s=%s" % kv for kv in sh.items())) or "plain")
+    for e in io.get("log", []):
+        eng.count("rec.events", e[0] + ":" + (e[1] if isinstance(e[1], str) else "%d items" % len(e[1])))
+    closed = False
+    for cmd in c["script"]:
+        if cmd[0] == "close":
+            closed = True
+        elif closed:
+            eng.count("rec.after_close", cmd[0])
+    for k, st in enumerate(io.get("streams", [])):
+        r = io["recs"][k] if k < len(io["recs"]) else None
+        if r is not None and st["nframes"]:
+            left = st["reads"] * st["nframes"][0] - len(r["visible"])
+            eng.count("rec.at_close", "never read" if st["reads"] == 0 else ("chunk used up" if left == 0 else "in the middle of a chunk"))
+        elif st["reads"] == 0:
+            eng.count("rec.at_close", "never read")
+
+
 def tally(eng, c, io):
+    if is_rec(c):
+        return tally_rec(eng, c, io)
     eng.count("outcome", io.get("outcome"))
     eng.count("variant", io.get("variant"))
     ch = io.get("chosen", [])
     eng.count("steps", len(ch) // 10 * 10)
     eng.count("players", len(io.get("alive", [])))
     eng.count("wait", c["wait"])
-    eng.count("with_block", bool(c.get("with")))
+    eng.count("with_block", ("left by an exception" if c.get("with_raise") else "left normally") if c.get("with") else False)
     eng.count("context_switches", min(sum(1 for a, b in zip(ch, ch[1:]) if a != b), 12))
     ops = {lab.split(".")[-1] if "." in lab else lab for lab in io.get("own", []) if lab}
     for o in ops:
@@ -963,6 +1521,21 @@ def tally(eng, c, io):
     if io.get("outcome") == "deadlock":
         eng.count("deadlock_pending", io["final"])
     eng.count("granularity", "fine (every pull is a step)" if is_fine(c) else "coarse (synchronisation + backend)")
+    sh = shape_of(c)
+    eng.count("shape.chunk_size", "omitted (chunks.size)" if sh["cs_how"] == "default" else "keyword")
+    eng.count("shape.rate", "omitted (44100)" if sh["rate"] is None else "keyword")
+    eng.count("shape.channels", "omitted (1)" if sh["channels"] is None else "keyword %d" % sh["channels"])
+    eng.count("shape.wait", {"pos": "positional", "kw": "keyword", "omit": "omitted (False)"}[sh["wait_how"]])
+    eng.count("shape.api", ("api='jack'" if sh["api"] else "omitted") + (", explicit output_device_index" if sh["device"] is not None else ""))
+    eng.count("shape.sample_kind", sh["kind"])
+    eng.count("shape.close", sh["close_how"])
+    for k, st in enumerate(io.get("streams", [])):
+        if st.get("m") is not None:
+            plays = [x for x in full_script(c) if x[0] == "play"]
+            n = len(audio_of(c, st["m"], plays[st["m"]])) if st["m"] < len(plays) else 0
+            eng.count("audio_length", "zero" if n == 0 else ("exact multiple of the chunk" if n % st["cs"] == 0 else "with a partly filled last chunk"))
+        if st.get("write_fault") is not None:
+            eng.count("fault.backend_write", "raised after %d writes" % st["write_fault"] if st["write_failed"] else "armed, never reached")
     if is_fine(c):
         tally_fine(eng, c, io)
 
@@ -1083,7 +1656,23 @@ def _shrink_candidates(c):
             yield dict(c, strategy="struct")
 
 
+def _rec_shrinks(c):
+    sc = c["script"]
+    for i in range(len(sc)):
+        if len(sc) > 1:
+            yield dict(c, script=sc[:i] + sc[i + 1:])
+    for i, cmd in enumerate(sc):
+        if cmd[0] == "take" and cmd[2] > 0:
+            yield dict(c, script=sc[:i] + [["take", cmd[1], cmd[2] - 1]] + sc[i + 1:])
+        if cmd[0] == "record" and cmd[1] > 1:
+            yield dict(c, script=sc[:i] + [["record", cmd[1] - 1]] + sc[i + 1:])
+    if c.get("shape"):
+        yield {k: v for k, v in c.items() if k != "shape"}
+
+
 def shrink(c):
+    if is_rec(c):
+        return list(_rec_shrinks(c))
     cands = list(_shrink_candidates(c))
     if not cands:
         return []
@@ -1094,6 +1683,10 @@ def shrink(c):
 
 
 def neighbours(c):
+    if is_rec(c):
+        for i in range(len(c["script"]) + 1):
+            yield dict(c, script=c["script"][:i] + [["close"]] + c["script"][i:])
+        return
     yield dict(c, wait=not c["wait"])
     sch = c.get("schedule", [])
     for i in range(len(sch) - 1):
@@ -1108,9 +1701,47 @@ def neighbours(c):
             yield dict(c, cs=cs, schedule=[])
 
 
+def _no_trace_view(o, drop=None):
+    """what must not depend on a play call whose pa.open raised: the log without that call, what
+    every device stream received and its state, the manager's state (threads that were never
+    started do not count)"""
+    log = [e[:2] for i, e in enumerate(o["log"]) if i != drop]
+    rel = lambda w: [[v % 100 if isinstance(v, int) else v for v in ch] for ch in w]   # samples(m, n): 100 (m + 1) + j
+    return {"log": log, "streams": [[rel(st["written"]), st["state"]] for st in o["streams"]],
+            "terminates": o["terminates"], "finished": o["finished"], "threads": o["threads"],
+            "outcome": o["outcome"], "protocol_errors": o["protocol_errors"], "crashes": o["crashes"]}
+
+
+def failed_open_checks():
+    """A backend whose pa.open raises for one play call: the call raises that error and leaves no
+    trace — the history goes on exactly as the history without that call (manager lock free, nothing
+    in _threads, every stream that was opened closed by close(), backend terminated once)."""
+    out = []
+    histories = [
+        ([["play", 3], ["play", 3], ["close"]], 0, 0),
+        ([["play", 3], ["play", 2], ["pause", 0], ["resume", 0], ["close"]], 1, 1),
+        ([["play", 2], ["play", 3], ["play", 1], ["stop", 0], ["close"], ["play", 2]], 1, 1),
+    ]
+    for script, k, nopen in histories:
+        for wait in (False, True):
+            a = run_case({"script": script, "wait": wait, "cs": 2, "schedule": [], "faults": {"open": [nopen]}})
+            plays = [i for i, x in enumerate(script) if x[0] == "play"]
+            # (handles th_i count the players that were created: nothing shifts)
+            less = script[:plays[k]] + script[plays[k] + 1:]
+            b = run_case({"script": less, "wait": wait, "cs": 2, "schedule": []})
+            got, want = _no_trace_view(a, plays[k]), _no_trace_view(b)
+            raised = a["log"][plays[k]][1] if plays[k] < len(a["log"]) else None
+            ok = got == want and raised == "OTHER:OSError"
+            out.append(("play whose pa.open raises leaves no trace (%d calls, failing play #%d, wait=%s)" % (len(script), k, wait),
+                        ok, "" if ok else "raised %r; with the failing call %r; without it %r" % (raised, got, want)))
+    return out
+
+
 def extra_checks(eng):
     v = variant()
     eng.count("variant_probe", v)
+    for item in failed_open_checks():
+        yield item
     mod = lazy_io()
     yield ("lazy_io source loaded from the repo under test",
            os.path.realpath(mod.__file__) == os.path.realpath(os.path.join(common.REPO, "audiolazy", "lazy_io.py")),
